@@ -184,6 +184,7 @@ class MediaRigBase:
             self.loop.run_until_idle(self.loop.time())
             raise RuntimeError("coroutine waits for something that needs time to pass")
         return task.result()
+        return task.result()
 
     def close_base(self):
         try:
